@@ -827,7 +827,8 @@ func (d *DotGit) ObjectsWithPrefix(prefix []byte) ([]plumbing.Hash, error) {
 	// Handle edge cases.
 	if len(prefix) < 1 {
 		return d.Objects()
-	} else if len(prefix) > plumbing.ZeroHash.Size() {
+	} else if len(prefix) > d.options.ObjectFormat.Size() && len(prefix) > plumbing.ZeroHash.Size() {
+		// longer than an object id of this repository (32 bytes with sha256)
 		return nil, nil
 	}
 
